@@ -26,6 +26,26 @@ fn gen_input(rng: &mut Rng, idx: u64, directed: &[(String, Vec<u8>)]) -> (String
     if (idx as usize) < 20 + directed.len() {
         return directed[idx as usize - 20].clone();
     }
+    if idx % 9 == 8 {
+        // modules without functions whose LAST instruction renders as a very long line (long strings,
+        // long operand lists): exercises buffered / partial writes of the output
+        use crate::gram::{AInst, AOp};
+        let mut insts = vec![AInst::named("MemoryModel", None, None, vec![AOp::w(crate::gram::K::AddressingModel, 0), AOp::w(crate::gram::K::MemoryModel, 1)])];
+        let len = *rng.pick(&[600usize, 1000, 1023, 1024, 1025, 1500, 4096, 9000, 70_000]) + rng.below(3);
+        let long: String = (0..len).map(|i| (b'a' + (i % 26) as u8) as char).collect();
+        let last = match rng.below(4) {
+            0 => AInst::named("ModuleProcessed", None, None, vec![AOp::s(&long)]),
+            1 => AInst::named("String", None, Some(7), vec![AOp::s(&long)]),
+            2 => AInst::named("TypeStruct", None, Some(7), (0..(len / 4).min(16000) as u32).map(|i| AOp::id(100 + i)).collect()),
+            _ => AInst::named("Name", None, None, vec![AOp::id(3), AOp::s(&long)]),
+        };
+        for _ in 0..rng.below(3) {
+            insts.push(AInst::named("Name", None, None, vec![AOp::id(4), AOp::s("x")]));
+        }
+        insts.push(last);
+        let (w, _m, _s) = crate::genmod::encode_module(0x0001_0300, 0, 20_000, &insts, None);
+        return (format!("long-last-line-{}", len), words_to_bytes(&w));
+    }
     let must = vec![rng.below(d.insts.len())];
     let small = rng.chance(1, 2);
     let b = gen_base(rng, must, small);
